@@ -22,6 +22,8 @@ def diff (m i : State) : Option String :=
 def check (j : Json) : Except String (Option String) := do
   let pre : State ← getField j "pre" >>= fromJson?
   let post : State ← getField j "post" >>= fromJson?
+  -- a restart of the network from its own exported genesis changes nothing the module holds
+  if let .ok (.str "restart") := getField j "op" then return diff pre post
   let op : Op ← getField j "op" >>= fromJson?
   let h : Int ← getField j "h" >>= fromJson?
   let ok : Bool ← getField j "ok" >>= fromJson?
